@@ -30,3 +30,9 @@ Print Assumptions C06_load_store_refuted.
 Theorem C06_off_by_one_refuted : length (filter (fun p : nat*nat => snd p <=? 1) (log (run [(0,Rmw);(1,Rmw);(2,Rmw)]))) = 2.
 Proof. exact off_by_one_refuted. Qed.
 Print Assumptions C06_off_by_one_refuted.
+
+(* the shape of the source the model's scope exit hard-codes, as found in the source now (regenerated on every run) *)
+From Inj Require Import SrcTieLife.
+Theorem C06_source_verdict_shape : src_verifier_compares_ne && src_verifier_silent_when_unwinding = true.
+Proof. exact src_verdict_shape. Qed.
+Print Assumptions C06_source_verdict_shape.
